@@ -37,9 +37,18 @@ def main():
         common.run_main(lambda: selftest.main(tier, seed))
     pid = a.what.upper()
     if pid == "EXT":
-        from . import ext_switch
+        # every extension module (behaviour beyond the listed properties): harness/ext_<name>.py, each its own process
+        import glob
 
-        common.run_main(lambda: ext_switch.main(tier, seed))
+        rc = 0
+        for f in sorted(glob.glob(os.path.join(os.path.dirname(__file__), "ext_*.py"))):
+            name = os.path.basename(f)[4:-3]
+            p = subprocess.run([sys.executable, "-m", "harness.main", f"EXT-{name}", "--tier", tier, "--seed", str(seed)])
+            rc = max(rc, p.returncode)
+        sys.exit(rc)
+    if pid.startswith("EXT-"):
+        mod = importlib.import_module("harness.ext_" + a.what[4:].lower())
+        common.run_main(lambda: mod.main(tier, seed))
     if pid not in CHECKS:
         print(f"unknown check {a.what}")
         sys.exit(2)
